@@ -86,14 +86,92 @@ type vfLeaseStore struct {
 	// does not own is answered -MOVED <slot> <owner address> and NOT executed (cluster.c
 	// getNodeByQuery); CLUSTER SLOTS describes the table. Re-assigning a slot (VerifMoveSlot)
 	// moves its keys with it (a completed resharding as the client sees it: the keys are one
-	// shared map). Not transcribed: ASK / importing-migrating states, replicas, fail-over.
+	// shared map). ASK / importing-migrating: below. Not transcribed: replicas, fail-over.
 	clusterOn bool
 	nodeLns   []net.Listener
 	nodeAddrs []string
 	slotOwner [16384]int16
 	moved     int // requests answered with -MOVED
 	movedLog  []string
+	// ASK (session 5; Model/LeaseCluster.lean `serve`): a slot may be MIGRATING from its owner to another
+	// node (IMPORTING there). The key space is one shared map; atTarget marks the keys that are at the
+	// importing node (MIGRATEd there, or created there through ASKING). The owner serves a key it still
+	// has and answers -ASK <slot> <importing node> (nothing executed) for one it has not; the importing
+	// node serves a request only if the connection sent ASKING just before, else -MOVED <owner>.
+	migTo    [16384]int16 // 0 = not migrating, else importing node + 1
+	atTarget map[string]bool
+	asking   map[int]bool // connection id -> ASKING received (applies to its next data request)
+	asked    int          // requests answered with -ASK
+	askServed int         // requests served by an importing node after ASKING
+	// COUNTED budget of redirections (-MOVED / -ASK) between two harness events: a correct client needs at most
+	// two per call (stale node -> owner -> importing node); a client that loops (ASKING forgotten, -ASK followed
+	// like -MOVED, …) would otherwise hang the check. Once the budget is spent the node answers a plain error
+	// (nothing executed): the call returns, the model diff names the trace. No clock involved.
+	redirLeft  int
+	redirSpent int // requests refused because the budget was spent
+	// every EVAL in order: <C campaign script | X resign script>:<ARGV[1]>:<integer reply> (C15loop)
+	evalLogOn bool
+	evalLog   []string
 }
+
+func (st *vfLeaseStore) VerifEvalLog(on bool) {
+	st.mu.Lock()
+	st.evalLogOn, st.evalLog = on, nil
+	st.mu.Unlock()
+}
+
+func (st *vfLeaseStore) VerifEvalLogSnapshot() []string {
+	st.mu.Lock()
+	defer st.mu.Unlock()
+	return append([]string(nil), st.evalLog...)
+}
+
+// VerifInject: ATOMICALLY (under the store's lock, so that its place among the EVALs is exact) the clock
+// advances by `advance` ms and, if val != "", key = val is written with a lifetime of ttlMs (another
+// contender won the key); returns the number of EVALs logged before it.
+func (st *vfLeaseStore) VerifInject(advance int64, key, val string, ttlMs int64) int {
+	st.mu.Lock()
+	defer st.mu.Unlock()
+	st.now += advance
+	if val != "" {
+		st.data[key] = vfEntry{val: val, exp: st.now + ttlMs}
+	}
+	return len(st.evalLog)
+}
+
+// VerifSetKey writes key = val with a lifetime of ttlMs on the store's clock (another contender's lease)
+func (st *vfLeaseStore) VerifSetKey(key, val string, ttlMs int64) {
+	st.mu.Lock()
+	st.data[key] = vfEntry{val: val, exp: st.now + ttlMs}
+	st.mu.Unlock()
+}
+
+const vfRedirBudget = 16
+
+// VerifResetRedirects: a new harness event starts (the budget is per event)
+func (st *vfLeaseStore) VerifResetRedirects() {
+	st.mu.Lock()
+	st.redirLeft = vfRedirBudget
+	st.mu.Unlock()
+}
+
+func (st *vfLeaseStore) VerifRedirectsRefused() int {
+	st.mu.Lock()
+	defer st.mu.Unlock()
+	return st.redirSpent
+}
+
+// redirectLocked: one more redirection; false = the budget is spent (st.mu held)
+func (st *vfLeaseStore) redirectLocked() bool {
+	if st.redirLeft <= 0 {
+		st.redirSpent++
+		return false
+	}
+	st.redirLeft--
+	return true
+}
+
+var vfRedirRefused = vfReply{kind: '-', s: "ERR vf: redirection budget of this event is spent (client follows redirections in a loop)"}
 
 func (st *vfLeaseStore) armPause(conn, after int) {
 	st.mu.Lock()
@@ -121,7 +199,8 @@ func vfNewLeaseStore() (*vfLeaseStore, error) {
 
 // vfNewClusterLeaseStore: n nodes; slots are dealt out evenly in contiguous ranges.
 func vfNewClusterLeaseStore(n int) (*vfLeaseStore, error) {
-	st := &vfLeaseStore{data: map[string]vfEntry{}, parsed: map[string]*vfLuaChunk{}, parseErr: map[string]error{}, pauseConn: -1, clusterOn: true}
+	st := &vfLeaseStore{data: map[string]vfEntry{}, parsed: map[string]*vfLuaChunk{}, parseErr: map[string]error{}, pauseConn: -1, clusterOn: true,
+		atTarget: map[string]bool{}, asking: map[int]bool{}, redirLeft: vfRedirBudget}
 	for i := 0; i < n; i++ {
 		ln, err := net.Listen("tcp", "127.0.0.1:0")
 		if err != nil {
@@ -176,7 +255,7 @@ func vfKeysOf(args []string) []string {
 }
 
 // movedLocked: the redirect a node gives for a request it must not serve (st.mu held)
-func (st *vfLeaseStore) movedLocked(node int, args []string) (vfReply, bool) {
+func (st *vfLeaseStore) movedLocked(node int, conn int, args []string) (vfReply, bool) {
 	if !st.clusterOn {
 		return vfReply{}, false
 	}
@@ -184,6 +263,8 @@ func (st *vfLeaseStore) movedLocked(node int, args []string) (vfReply, bool) {
 	if len(keys) == 0 {
 		return vfReply{}, false
 	}
+	asking := st.asking[conn]
+	delete(st.asking, conn) // one-shot: the flag covers the next data request only
 	slot := vfdoubles.ClusterSlot(keys[0])
 	for _, k := range keys[1:] {
 		if vfdoubles.ClusterSlot(k) != slot {
@@ -191,8 +272,27 @@ func (st *vfLeaseStore) movedLocked(node int, args []string) (vfReply, bool) {
 		}
 	}
 	owner := int(st.slotOwner[slot])
+	mig := int(st.migTo[slot]) - 1
 	if owner == node {
+		if mig >= 0 {
+			if _, live := st.live(keys[0]); !live || st.atTarget[keys[0]] {
+				if !st.redirectLocked() {
+					return vfRedirRefused, true
+				}
+				st.asked++
+				return vfReply{kind: '-', s: fmt.Sprintf("ASK %d %s", slot, st.nodeAddrs[mig])}, true
+			}
+		}
 		return vfReply{}, false
+	}
+	if mig == node && asking {
+		// served by the importing node: whatever key this request leaves behind is there
+		st.atTarget[keys[0]] = true
+		st.askServed++
+		return vfReply{}, false
+	}
+	if !st.redirectLocked() {
+		return vfRedirRefused, true
 	}
 	st.moved++
 	st.movedLog = append(st.movedLog, strings.ToUpper(args[0]))
@@ -372,6 +472,17 @@ func (st *vfLeaseStore) exec(args []string) vfReply {
 		st.lastEvalKeys = append([]string{}, args[3:3+nk]...)
 		st.lastEvalArgv = append([]string{}, args[3+nk:]...)
 		st.lastEvalReply = rp
+		if st.evalLogOn {
+			kind := "C" // campaign script (SET … EX / EXPIRE)
+			if strings.Contains(args[1], "'DEL'") && !strings.Contains(args[1], "'SET'") {
+				kind = "X" // resign script
+			}
+			id := ""
+			if 3+nk < len(args) {
+				id = args[3+nk]
+			}
+			st.evalLog = append(st.evalLog, fmt.Sprintf("%s:%s:%d", kind, id, rp.n))
+		}
 		return rp
 	}
 	return vfReply{kind: '-', s: "ERR unknown command '" + args[0] + "'"}
@@ -464,7 +575,15 @@ func (st *vfLeaseStore) serveNode(c net.Conn, id int, node int) {
 			return
 		}
 		st.mu.Lock()
-		if mv, isMoved := st.movedLocked(node, args); isMoved {
+		if st.clusterOn && len(args) == 1 && strings.ToUpper(args[0]) == "ASKING" {
+			st.asking[id] = true
+			st.mu.Unlock()
+			if err := vfWriteReply(w, vfReply{kind: '+', s: "OK"}); err != nil {
+				return
+			}
+			continue
+		}
+		if mv, isMoved := st.movedLocked(node, id, args); isMoved {
 			// a redirect: nothing is executed, no fault / hold applies to it (they wait for the re-issued request)
 			st.mu.Unlock()
 			if err := vfWriteReply(w, mv); err != nil {
@@ -1014,6 +1133,11 @@ func (st *vfLeaseStore) VerifReset(now int64) {
 	st.mu.Lock()
 	st.now = now
 	st.data = map[string]vfEntry{}
+	// a new trace starts from an empty key space: no key is at an importing node; a migration that is
+	// under way stays (the next trace then starts inside it)
+	if st.atTarget != nil {
+		st.atTarget = map[string]bool{}
+	}
 	st.fail = vfFailNone
 	st.pauseConn = -1
 	st.mu.Unlock()
@@ -1101,7 +1225,48 @@ func (st *vfLeaseStore) VerifMoveSlot(key string, node int) int {
 	defer st.mu.Unlock()
 	sl := vfdoubles.ClusterSlot(key)
 	st.slotOwner[sl] = int16(node)
+	// a migration of that slot is over (SETSLOT NODE everywhere): all its keys are at the owner
+	st.migTo[sl] = 0
+	for k := range st.atTarget {
+		if vfdoubles.ClusterSlot(k) == sl {
+			delete(st.atTarget, k)
+		}
+	}
 	return sl
+}
+
+// VerifBeginMigrate: the slot of key is MIGRATING from its owner to node (IMPORTING there); false if node
+// owns it or it is migrating already.
+func (st *vfLeaseStore) VerifBeginMigrate(key string, node int) bool {
+	st.mu.Lock()
+	defer st.mu.Unlock()
+	sl := vfdoubles.ClusterSlot(key)
+	if int(st.slotOwner[sl]) == node || st.migTo[sl] != 0 || node < 0 || node >= len(st.nodeAddrs) {
+		return false
+	}
+	st.migTo[sl] = int16(node + 1)
+	return true
+}
+
+// VerifMigrateKey: MIGRATE of one key of a migrating slot (it is at the importing node from now on)
+func (st *vfLeaseStore) VerifMigrateKey(key string) bool {
+	st.mu.Lock()
+	defer st.mu.Unlock()
+	sl := vfdoubles.ClusterSlot(key)
+	if st.migTo[sl] == 0 || st.atTarget[key] {
+		return false
+	}
+	if _, live := st.live(key); !live {
+		return false
+	}
+	st.atTarget[key] = true
+	return true
+}
+
+func (st *vfLeaseStore) VerifAsked() (asked, served int) {
+	st.mu.Lock()
+	defer st.mu.Unlock()
+	return st.asked, st.askServed
 }
 
 func (st *vfLeaseStore) VerifOwnerOf(key string) int {
